@@ -34,6 +34,7 @@ import (
 //verif:override (github.com/haqq-network/haqq/precompiles/distribution.Precompile).EmitClaimRewardsEvent -> c02EmitClaim
 //verif:override (github.com/haqq-network/haqq/precompiles/distribution.Precompile).EmitWithdrawDelegatorRewardsEvent -> c02EmitWithdraw
 //verif:override (github.com/haqq-network/haqq/precompiles/distribution.Precompile).EmitWithdrawValidatorCommissionEvent -> c02EmitCommission
+//verif:override (github.com/haqq-network/haqq/precompiles/distribution.Precompile).EmitSetWithdrawAddressEvent -> c02EmitSetWithdraw
 
 var (
 	c02Origin   = common.HexToAddress("0x1000000000000000000000000000000000000001") // the transaction signer
@@ -81,6 +82,7 @@ var c02 struct {
 	withdraw map[common.Address]common.Address // withdraw address per beneficiary
 	due      sdkmath.Int                       // outstanding rewards / commission of the named account
 	paid     int
+	acted    []string // bech32 account the module was asked to act for, per call
 }
 
 func c02Pay(beneficiary sdk.AccAddress) (sdk.Coins, error) {
@@ -95,13 +97,16 @@ func c02Pay(beneficiary sdk.AccAddress) (sdk.Coins, error) {
 	c02.bank.bal[c02Pool] = c02.bank.get(c02Pool).Sub(c02.due)
 	c02.bank.bal[to] = c02.bank.get(to).Add(c02.due)
 	c02.paid++
+	c02.acted = append(c02.acted, beneficiary.String())
 	return sdk.NewCoins(sdk.NewCoin("aISLM", c02.due)), nil
 }
 
 type c02Srv struct{}
 
 func (c02Srv) SetWithdrawAddress(ctx context.Context, m *distributiontypes.MsgSetWithdrawAddress) (*distributiontypes.MsgSetWithdrawAddressResponse, error) {
-	panic("not used")
+	c02.acted = append(c02.acted, m.DelegatorAddress)
+	c02.withdraw[common.BytesToAddress(sdk.MustAccAddressFromBech32(m.DelegatorAddress).Bytes())] = common.BytesToAddress(sdk.MustAccAddressFromBech32(m.WithdrawAddress).Bytes())
+	return &distributiontypes.MsgSetWithdrawAddressResponse{}, nil
 }
 func (c02Srv) WithdrawDelegatorReward(ctx context.Context, m *distributiontypes.MsgWithdrawDelegatorReward) (*distributiontypes.MsgWithdrawDelegatorRewardResponse, error) {
 	coins, err := c02Pay(sdk.MustAccAddressFromBech32(m.DelegatorAddress))
@@ -147,6 +152,58 @@ func c02EmitWithdraw(p Precompile, ctx sdk.Context, stateDB vm.StateDB, delegato
 }
 func c02EmitCommission(p Precompile, ctx sdk.Context, stateDB vm.StateDB, validatorAddress string, coins sdk.Coins) error {
 	return nil
+}
+
+func c02EmitSetWithdraw(p Precompile, ctx sdk.Context, stateDB vm.StateDB, caller common.Address, withdrawerAddress string) error {
+	return nil
+}
+
+// VerifC04_Distribution: a successful state-changing distribution call acts only for the transaction signer or the immediate
+// caller (C04), and the module is asked exactly once, for exactly the named account (C16); a refused call reaches nothing.
+func VerifC04_Distribution() {
+	env := zz.NewEnv([]string{"distribution"}, nil)
+	ctx := env.Ctx.WithBlockTime(time.Unix(1700000000, 0))
+	p := Precompile{Precompile: cmn.Precompile{ApprovalExpiration: time.Hour}, stakingKeeper: stakingkeeper.Keeper{Keeper: &sdkstakingkeeper.Keeper{}}}
+	bank := &c02Bank{bal: map[common.Address]sdkmath.Int{}, supply: sdk.ZeroInt()}
+	c02.bank, c02.withdraw, c02.paid, c02.acted = bank, map[common.Address]common.Address{}, 0, nil
+	for _, a := range c02Addrs {
+		bank.bal[a] = zz.AnyAmount("bal."+c02Tag(a), 100)
+	}
+	c02.due = zz.AnyAmount("due", 100)
+	zz.Assume(c02.due.IsPositive())
+	db := statedb.New(ctx, bank, statedb.NewEmptyTxConfig(common.Hash{}))
+	db.GetBalance(c02Origin)
+	caller := []common.Address{c02Origin, c02Contract}[zz.Choose("caller", 2)]
+	if caller == c02Contract {
+		db.GetCodeHash(c02Contract)
+	}
+	named := []common.Address{c02Origin, c02Contract, c02Other}[zz.Choose("named", 3)]
+	contract := &vm.Contract{CallerAddress: caller}
+	method := zz.Choose("method", 4)
+	var err error
+	switch method {
+	case 0:
+		_, err = p.WithdrawDelegatorRewards(ctx, c02Origin, contract, db, c02Method, []interface{}{named, c02Val})
+	case 1:
+		_, err = p.ClaimRewards(ctx, c02Origin, contract, db, c02Method, []interface{}{named, uint32(1)})
+	case 2:
+		_, err = p.WithdrawValidatorCommission(ctx, c02Origin, contract, db, c02Method, []interface{}{sdk.ValAddress(named.Bytes()).String()})
+	default:
+		_, err = p.SetWithdrawAddress(ctx, c02Origin, contract, db, c02Method, []interface{}{named, sdk.AccAddress(c02Other.Bytes()).String()})
+	}
+	if err != nil {
+		zz.Assert(len(c02.acted) == 0, "a refused call does not reach the distribution module")
+		zz.Reach("refused")
+		return
+	}
+	zz.Reach("accepted")
+	zz.Assert(named == c02Origin || named == caller, "the account acted for is the transaction signer or the calling contract")
+	zz.Assert(len(c02.acted) == 1, "the distribution module is asked exactly once")
+	zz.Assert(c02.acted[0] == sdk.AccAddress(named.Bytes()).String(), "the module acts for exactly the named account")
+	if method == 3 {
+		zz.Assert(c02.withdraw[named] == c02Other, "the withdraw address recorded is the one given")
+	}
+	zz.Reach("end")
 }
 
 func c02Tag(a common.Address) string { return string(rune('A' + int(a[0]>>4) - 1)) }
